@@ -159,3 +159,67 @@ pub fn op_name(ctx: &Context, n: Node) -> String {
 pub fn prog_with_all_outputs(p: &Prog, export_all: bool) -> Prog {
     if export_all { p.export_all() } else { p.clone() }
 }
+
+////////////////////////////////////////////////////////////////////////////////
+// Backends
+
+use fidget_core::compiler::RegOp;
+use fidget_core::eval::MathFunction;
+use fidget_core::vm::{GenericVmFunction, VmFunction};
+use fidget_jit::JitFunction;
+
+/// The two CPU backends behind one interface (register tape access included)
+pub trait Backend: MathFunction + Function<Trace = VmTrace> {
+    const NAME: &'static str;
+    const REGS: usize;
+    const IS_JIT: bool;
+    fn ops(&self) -> Vec<RegOp>;
+    fn slot_count(&self) -> usize;
+    fn choice_count(&self) -> usize;
+}
+
+impl Backend for VmFunction {
+    const NAME: &'static str = "vm";
+    const REGS: usize = 255;
+    const IS_JIT: bool = false;
+    fn ops(&self) -> Vec<RegOp> {
+        self.data().iter_asm().collect()
+    }
+    fn slot_count(&self) -> usize {
+        self.data().slot_count()
+    }
+    fn choice_count(&self) -> usize {
+        self.data().choice_count()
+    }
+}
+
+impl Backend for JitFunction {
+    const NAME: &'static str = "jit";
+    const REGS: usize = 12;
+    const IS_JIT: bool = true;
+    fn ops(&self) -> Vec<RegOp> {
+        let g: &GenericVmFunction<12> = self.into();
+        g.data().iter_asm().collect()
+    }
+    fn slot_count(&self) -> usize {
+        let g: &GenericVmFunction<12> = self.into();
+        g.data().slot_count()
+    }
+    fn choice_count(&self) -> usize {
+        let g: &GenericVmFunction<12> = self.into();
+        g.data().choice_count()
+    }
+}
+
+pub fn to_intervals(b: &[(f32, f32)]) -> Vec<Interval> {
+    b.iter().map(|&(lo, hi)| Interval::new(lo, hi)).collect()
+}
+
+pub fn choice_name(c: Choice) -> &'static str {
+    match c {
+        Choice::Unknown => "Unknown",
+        Choice::Left => "Left",
+        Choice::Right => "Right",
+        Choice::Both => "Both",
+    }
+}
